@@ -1,7 +1,6 @@
 package clientprop
 
 import (
-	"context"
 	"fmt"
 	"sort"
 	"strings"
@@ -92,31 +91,30 @@ func runBubble(t *testing.T, sc *Scenario) (st *stats, err error) {
 	client.RetryMaxDelay = time.Duration(sc.MaxDelay) * Unit
 	client.RetryRandomization = 0
 	defer curWorld.Store(nil)
-	defer func() {
-		if r := recover(); r != nil {
-			msg := fmt.Sprintf("goroutines of the case are still blocked after Close was called, the caller's context cancelled and every scripted stream released: %v", r)
-			if err != nil {
-				err = newVerr(classOf(err), "%s; additionally %s", err.Error(), msg)
-			} else {
-				err = newVerr("stuck-goroutines", "%s", msg)
-			}
-		}
-	}()
 	err = newVerr("harness-error", "bubble did not run")
-	synctest.Test(t, func(*testing.T) {
+	deadlock, panicked := guardedBubble(t, func() {
 		defer func() {
 			if r := recover(); r != nil {
 				err = newVerr("panic", "panic on the scenario goroutine: %v", r)
 			}
 		}()
-		var v *verr
-		v = run(sc, st)
-		if v != nil {
+		if v := run(sc, st); v != nil {
 			err = v
 		} else {
 			err = nil
 		}
 	})
+	if deadlock != "" {
+		return st, newVerr("lock-deadlock", "%s", deadlock)
+	}
+	if panicked != nil {
+		msg := fmt.Sprintf("goroutines of the case are still blocked after Close was called, the caller's context cancelled and every scripted stream released: %v", panicked)
+		if err != nil {
+			err = newVerr(classOf(err), "%s; additionally %s", err.Error(), msg)
+		} else {
+			err = newVerr("stuck-goroutines", "%s", msg)
+		}
+	}
 	return st, err
 }
 
@@ -147,8 +145,16 @@ func run(sc *Scenario, st *stats) *verr {
 			func() { w.record("reset", -1, "") })
 		st.label("reconnect-client")
 	}
-	ctx, cancel := context.WithCancel(context.Background())
-	defer cancel()
+	// The caller's context: its shape is generated (ctxKinds). A context that
+	// ends by a deadline does so at the stop instant by itself.
+	stopAt, subAt := sc.stopInstant(), sc.subInstant()
+	after := stopAt - w.now()
+	if sc.Stop != "cancel" {
+		after = 1000 * time.Hour
+	}
+	ctx, cancel, release := mkCtx(sc.Ctx, after)
+	defer release()
+	st.label(ctxLabel(sc.Ctx))
 	q := client.Query{
 		Addrs:   []string{"c18"},
 		Target:  "dev",
@@ -210,7 +216,6 @@ func run(sc *Scenario, st *stats) *verr {
 	}
 
 	var v *verr
-	stopAt, subAt := sc.stopInstant(), sc.subInstant()
 	stopFirst := stopAt < subAt
 	var bound time.Duration // the current backoff interval at the stop action
 	earlier := 0            // backoffs completed before it
@@ -283,22 +288,35 @@ func run(sc *Scenario, st *stats) *verr {
 		}
 		if sc.Stop == "close" {
 			closeClient()
+		} else if ctxSelfEnding(sc.Ctx) {
+			// the deadline passes 1 ns from now (nothing else can happen in between)
+			w.record("cancel", -1, "deadline of "+ctxLabel(sc.Ctx))
+			sleepUntil(stopAt)
+			if ctx.Err() == nil {
+				v = newVerr("harness-error", "the deadline of the caller's context did not pass at %v", stopAt)
+			}
 		} else {
-			w.record("cancel", -1, "")
+			w.record("cancel", -1, ctxLabel(sc.Ctx))
 			cancel()
 			synctest.Wait()
 		}
 	}
+	// The stop action is classified with everything quiescent; a deadline fires
+	// by itself, so the harness looks 1 ns before it does.
+	early := time.Duration(0)
+	if sc.Stop == "cancel" && ctxSelfEnding(sc.Ctx) {
+		early = time.Nanosecond
+	}
 
 	if stopFirst {
-		sleepUntil(stopAt)
+		sleepUntil(stopAt - early)
 		stop()
 		sleepUntil(subAt)
 		subscribe()
 	} else {
 		sleepUntil(subAt)
 		subscribe()
-		sleepUntil(stopAt)
+		sleepUntil(stopAt - early)
 		stop()
 	}
 	from := stopAt
@@ -365,7 +383,7 @@ func run(sc *Scenario, st *stats) *verr {
 
 	// End of the case: release everything the script may still hold.
 	w.abort()
-	cancel()
+	release()
 	select {
 	case <-w.gate:
 	default:
@@ -552,6 +570,10 @@ func (w *world) labels(st *stats) {
 	if sc.Stop == "cancel" {
 		kind = "cancel"
 		st.label("ctx-cancel-instead-of-close")
+		if ctxSelfEnding(sc.Ctx) {
+			st.label("ctx-ends-by-deadline")
+			st.label("ctx-ends-by-deadline-" + phaseLabel(st.phase))
+		}
 	}
 	switch st.phase {
 	case "before-subscribe":
@@ -623,6 +645,13 @@ func (w *world) labels(st *stats) {
 		}
 		if a.Sub == "err" {
 			st.label("subscribe-error")
+			continue
+		}
+		if a.SubDelay > 0 {
+			st.label("impl-subscribe-takes-time")
+		}
+		if a.Sub == "park" && !as.deaf {
+			st.label("impl-subscribe-parks")
 			continue
 		}
 		if as.next < len(a.Msgs) || (!as.endWaited && a.End != "block") {
